@@ -589,10 +589,13 @@ def check_formula(case) -> Outcome:
                 f.append(mk_term(T(step[1])))
                 m.append(list(T(step[1])))
             elif op == "extend":
-                f.extend([mk_term(T(i)) for i in step[1]])
+                # (every third time from a one-shot iterator rather than a list)
+                items = [mk_term(T(i)) for i in step[1]]
+                f.extend(iter(items) if len(step[1]) % 3 == 2 else items)
                 m.extend([list(T(i)) for i in step[1]])
             elif op == "iadd":
-                f += [mk_term(T(i)) for i in step[1]]
+                items = [mk_term(T(i)) for i in step[1]]
+                f += (x_ for x_ in items) if len(step[1]) % 3 == 1 else items
                 m += [list(T(i)) for i in step[1]]
             elif op == "setint":
                 if not m:
